@@ -728,7 +728,11 @@ class Database(SQLiteMixin):
             row['claim_id'] = txo.purchased_claim_id
         if txo.script.is_claim_involved:
             row['claim_id'] = txo.claim_id
-            row['claim_name'] = txo.claim_name
+            try:
+                row['claim_name'] = txo.claim_name
+            except UnicodeDecodeError:
+                # names are arbitrary bytes on chain, keep the output and store a lossy text form
+                row['claim_name'] = txo.script.values['claim_name'].decode(errors='replace')
         return row
 
     def tx_to_row(self, tx):
